@@ -97,7 +97,7 @@ func run(c *lib.Ctx) error {
 	}()
 
 	// ---- V: record
-	nHist := c.Pick(200, 3000)
+	nHist := c.Pick(200, 1600)
 	procs := []int{1, 2, 4, 8}
 	var hists []History
 	t0 := time.Now()
@@ -113,7 +113,7 @@ func run(c *lib.Ctx) error {
 		hists = append(hists, hs...)
 	}
 	if c.Thorough() {
-		hs, err := record(c, scratch, "proc", c.Seed*1_000_003+999_983, 400, true)
+		hs, err := record(c, scratch, "proc", c.Seed*1_000_003+999_983, 200, true)
 		if err != nil {
 			wg.Wait()
 			return err
@@ -149,7 +149,7 @@ func run(c *lib.Ctx) error {
 // judgeAll validates the histories in batches; a rejected history is reported and the rest of its
 // batch is validated again without it.
 func judgeAll(c *lib.Ctx, dir string, hists []History) error {
-	per := 50
+	per := c.Pick(50, 60)
 	type batch struct{ hs []History }
 	var batches []batch
 	for i := 0; i < len(hists); i += per {
